@@ -59,7 +59,8 @@ func init() {
 			"creation pairs the API refuses with an error are 'not accepted' and only counted",
 			"strict parsing (asn1.AllowPermissiveParsing == false)",
 		},
-		ChildTimeoutQuick: 600,
+		ChildTimeoutQuick:    600,
+		ChildTimeoutThorough: 5400,
 	}, runC03)
 }
 
